@@ -165,7 +165,8 @@ func (rg *rig) writeCase(up *uploadPath, id string, rng *rand.Rand) {
 	rg.noteCase("write/" + up.name)
 
 	var err error
-	if rg.maxQueue <= 0 {
+	if rg.maxQueue <= 0 && rg.gcWindows < 6 {
+		rg.gcWindows++
 		// Uploads are switched off: the handle given to the proxy must be
 		// closed right away.
 		withoutGC(func() {
@@ -329,6 +330,7 @@ func (w *world) checkOnce() {
 		} else {
 			w.r.Count("write.exactly-once")
 		}
+		c.rg.be.forget(c.hash)
 	}
 	w.pendingOnce = nil
 }
@@ -343,7 +345,7 @@ func (rg *rig) uploadFaultCase(up *uploadPath, plan *upPlan, id string, rng *ran
 	det := &readDetail{Rig: rg.name, Case: id, Op: up.name, Plan: "upload fault " + plan.label, Object: o.String(), Expect: "local entry intact; nothing leaked"}
 	rg.noteCase("write-fault/" + up.name + "/" + plan.label)
 	rg.be.setUploadPlan(o.hash, plan)
-	defer rg.be.clearPlan(o.hash)
+	defer rg.be.forget(o.hash)
 	if err := up.do(ctx, rg, o); err != nil {
 		r.Count("write-fault." + rg.name + ".rejected")
 		return
@@ -491,10 +493,14 @@ func (rg *rig) fullQueueCase(id string, rng *rand.Rand) {
 			map[string]any{"case": id, "open": clipList(open)})
 	}
 	rg.checkPanics("full-queue", "stall", id)
+	for _, o := range objs {
+		rg.be.forget(o.hash)
+	}
 }
 
 func (rg *rig) runWriteCases(nWrites, nFaults, nQueue int, half int) {
 	rng := rg.w.r.Rng(fmt.Sprintf("write/%s/%d", rg.name, half))
+	rg.gcWindows = 0
 	for i := 0; i < nWrites; i++ {
 		up := uploadPaths[(i+half*3)%len(uploadPaths)]
 		rg.writeCase(up, fmt.Sprintf("%s-h%d-w%d", rg.name, half, i), rng)
